@@ -343,24 +343,40 @@ fn chunker_config_from_params<R>(
     p: dict::ChunkerParameters,
 ) -> Result<chunker::Config, ArchiveError<R>> {
     use dict::chunker_parameters::ChunkingAlgorithm;
-    match ChunkingAlgorithm::try_from(p.chunking_algorithm) {
-        Ok(ChunkingAlgorithm::Buzhash) => Ok(chunker::Config::BuzHash(chunker::FilterConfig {
+    let config = match ChunkingAlgorithm::try_from(p.chunking_algorithm) {
+        Ok(ChunkingAlgorithm::Buzhash) => chunker::Config::BuzHash(chunker::FilterConfig {
             filter_bits: chunker::FilterBits::from_bits(p.chunk_filter_bits),
             min_chunk_size: p.min_chunk_size as usize,
             max_chunk_size: p.max_chunk_size as usize,
             window_size: p.rolling_hash_window_size as usize,
-        })),
-        Ok(ChunkingAlgorithm::Rollsum) => Ok(chunker::Config::RollSum(chunker::FilterConfig {
+        }),
+        Ok(ChunkingAlgorithm::Rollsum) => chunker::Config::RollSum(chunker::FilterConfig {
             filter_bits: chunker::FilterBits::from_bits(p.chunk_filter_bits),
             min_chunk_size: p.min_chunk_size as usize,
             max_chunk_size: p.max_chunk_size as usize,
             window_size: p.rolling_hash_window_size as usize,
-        })),
-        Ok(ChunkingAlgorithm::FixedSize) => {
-            Ok(chunker::Config::FixedSize(p.max_chunk_size as usize))
-        }
-        Err(_err) => Err(ArchiveError::invalid_archive("unknown chunking algorithm")),
+        }),
+        Ok(ChunkingAlgorithm::FixedSize) => chunker::Config::FixedSize(p.max_chunk_size as usize),
+        Err(_err) => return Err(ArchiveError::invalid_archive("unknown chunking algorithm")),
+    };
+    // The parameters come from the archive: make sure a chunker built from them can
+    // neither panic nor produce empty chunks for ever.
+    let valid_filter = |f: &chunker::FilterConfig, window_within_max: bool| {
+        f.window_size >= 1
+            && f.max_chunk_size >= 1
+            && f.min_chunk_size <= f.max_chunk_size
+            && (!window_within_max || f.window_size <= f.max_chunk_size)
+            && (1..=30).contains(&f.filter_bits.bits())
+    };
+    let valid = match &config {
+        chunker::Config::BuzHash(f) => valid_filter(f, true),
+        chunker::Config::RollSum(f) => valid_filter(f, false),
+        chunker::Config::FixedSize(size) => *size >= 1,
+    };
+    if !valid {
+        return Err(ArchiveError::invalid_archive("invalid chunker parameters"));
     }
+    Ok(config)
 }
 
 fn compression_from_dictionary<R>(
